@@ -89,6 +89,8 @@ theorem parity_append_byte (xs : List Bool) (b : Nat) :
 /-- every element is a byte -/
 def Bytes (bs : List Nat) : Prop := ∀ b ∈ bs, b < 256
 
+instance (bs : List Nat) : Decidable (Bytes bs) := by unfold Bytes; infer_instance
+
 theorem crcLoop_cons (b : Nat) (rest : List Nat) (r : BitVec 24) (hb : b < 256) :
     crcLoop (b :: rest) r.toNat = crcLoop rest (next r b).toNat := by
   have hr := r.isLt
